@@ -16,6 +16,12 @@
 //   - modifyNodeNullSafe: Expr.modify has no `nv.(gen.Node)` assertion and asNode returns nil for nil
 //   - modifyReflectNullSafe: Expr.modify never hands `reflect.ValueOf(nv)` to Set / SetMapIndex
 //   - modifyRootPushed: in Expr.modify, Nth / []any, the inner branch pushes `tv[i]` as it is when `fi == 0`
+//   - delOneGuarded: in Expr.set every `delete(tv, string(tf))` and `delete(tv, tu)` (a name in last position, Child and
+//     Union, map and gen.Object: four) is directly preceded by `if _, has = tv[<key>]; !has { continue }`
+//   - filterRootDocument: Expr.modify never calls `tf.Match` and tests the elements of a final filter with
+//     `tf.matchRoot(<v>, data)`; Filter.remove/removeOne never call `f.Match` but `f.match`; Filter.match hands
+//     `f.root` to matchRoot when rooted; Script.matchRoot passes `root` to evalWithRoot; MustRemove and MustRemoveOne
+//     replace a final *Filter by `tf.withRoot(data)` and withRoot sets `root: root, rooted: true`
 //
 // Fails loudly when a function or clause it looks for is missing.
 package main
@@ -307,12 +313,155 @@ func extractJpMut(repo, out string) ([]string, error) {
 	})
 	facts["modifyRootPushed"] = rootPushed
 
+	// Expr.set: DelOne goes on past an object without the member
+	deletes, delGuarded := 0, 0
+	ast.Inspect(setFn, func(n ast.Node) bool {
+		var list []ast.Stmt
+		switch t := n.(type) {
+		case *ast.BlockStmt:
+			list = t.List
+		case *ast.CaseClause:
+			list = t.Body
+		default:
+			return true
+		}
+		for i, st := range list {
+			es, ok := st.(*ast.ExprStmt)
+			if !ok {
+				continue
+			}
+			key := ""
+			switch set.txt(es.X) {
+			case "delete(tv,string(tf))":
+				key = "string(tf)"
+			case "delete(tv,tu)":
+				key = "tu"
+			default:
+				continue
+			}
+			deletes++
+			if i > 0 {
+				if is, ok := list[i-1].(*ast.IfStmt); ok && is.Init != nil && set.txt(is.Init) == "_,has=tv["+key+"]" &&
+					set.txt(is.Cond) == "!has" && is.Else == nil && len(is.Body.List) == 1 {
+					if bs, ok := is.Body.List[0].(*ast.BranchStmt); ok && bs.Tok == token.CONTINUE && bs.Label == nil {
+						delGuarded++
+					}
+				}
+			}
+		}
+		return true
+	})
+	if deletes == 0 {
+		return nil, fmt.Errorf("jpmut: Expr.set has no `delete(tv, string(tf))` / `delete(tv, tu)`")
+	}
+	facts["delOneGuarded"] = deletes == 4 && delGuarded == deletes
+
+	// `$` inside a final filter of Modify/Remove is the document
+	fil, err := jmLoad(repo, "filter.go")
+	if err != nil {
+		return nil, err
+	}
+	rem, err := jmLoad(repo, "remove.go")
+	if err != nil {
+		return nil, err
+	}
+	scr, err := jmLoad(repo, "script.go")
+	if err != nil {
+		return nil, err
+	}
+	calls := func(j *jmFile, root ast.Node, fun string) (n int, args [][]string) {
+		ast.Inspect(root, func(x ast.Node) bool {
+			if ce, ok := x.(*ast.CallExpr); ok && j.txt(ce.Fun) == fun {
+				n++
+				var a []string
+				for _, e := range ce.Args {
+					a = append(a, j.txt(e))
+				}
+				args = append(args, a)
+			}
+			return true
+		})
+		return
+	}
+	frd := true
+	if n, _ := calls(mod, modFn, "tf.Match"); n != 0 {
+		frd = false
+	}
+	nm, margs := calls(mod, modFn, "tf.matchRoot")
+	if nm == 0 {
+		frd = false
+	}
+	for _, a := range margs {
+		if len(a) != 2 || a[1] != "data" {
+			frd = false
+		}
+	}
+	for _, name := range []string{"remove", "removeOne"} {
+		fd, err := fil.fn("Filter", name)
+		if err != nil {
+			return nil, err
+		}
+		if n, _ := calls(fil, fd, "f.Match"); n != 0 {
+			frd = false
+		}
+		if n, _ := calls(fil, fd, "f.match"); n == 0 {
+			frd = false
+		}
+	}
+	if fd, err := fil.fn("Filter", "match"); err != nil {
+		frd = false
+	} else {
+		ok := false
+		ast.Inspect(fd, func(x ast.Node) bool {
+			if is, isIf := x.(*ast.IfStmt); isIf && fil.txt(is.Cond) == "f.rooted" && len(is.Body.List) == 1 &&
+				fil.txt(is.Body.List[0]) == "returnf.matchRoot(v,f.root)" {
+				ok = true
+			}
+			return true
+		})
+		frd = frd && ok
+	}
+	if fd, err := fil.fn("Filter", "withRoot"); err != nil {
+		frd = false
+	} else if !strings.Contains(fil.txt(fd.Body), "root:root,rooted:true") {
+		frd = false
+	}
+	if fd, err := scr.fn("Script", "matchRoot"); err != nil {
+		frd = false
+	} else {
+		n, args := calls(scr, fd, "s.evalWithRoot")
+		if n == 0 {
+			frd = false
+		}
+		for _, a := range args {
+			if len(a) != 3 || a[2] != "root" {
+				frd = false
+			}
+		}
+	}
+	for _, name := range []string{"MustRemove", "MustRemoveOne"} {
+		fd, err := rem.fn("Expr", name)
+		if err != nil {
+			return nil, err
+		}
+		rooted := false
+		ast.Inspect(fd, func(x ast.Node) bool {
+			if is, isIf := x.(*ast.IfStmt); isIf && is.Init != nil && rem.txt(is.Init) == "tf,ok:=last.(*Filter)" && rem.txt(is.Cond) == "ok" &&
+				len(is.Body.List) == 1 && rem.txt(is.Body.List[0]) == "last=tf.withRoot(data)" {
+				rooted = true
+			}
+			return true
+		})
+		frd = frd && rooted
+	}
+	facts["filterRootDocument"] = frd
+
 	var b strings.Builder
-	b.WriteString("/-! GENERATED by tools/extract (jpmut.go) from jp/slice.go, set.go, modify.go, union.go — do not edit.\n")
+	b.WriteString("/-! GENERATED by tools/extract (jpmut.go) from jp/slice.go, set.go, modify.go, union.go, filter.go, remove.go, script.go — do not edit.\n")
 	b.WriteString("One fact per repaired deviation of C13 (see tools/extract/jpmut.go for what each one reads). -/\n")
 	b.WriteString("namespace OjgVerif.Gen.JpMut\n\n")
 	for _, k := range []string{"inStepFromStart", "setEmptySliceGuarded", "setDescentClears", "modifyDescentClears", "unionRemoveFromEnd",
-		"genUnionGuarded", "modifyNodeNullSafe", "modifyReflectNullSafe", "modifyRootPushed"} {
+		"genUnionGuarded", "modifyNodeNullSafe", "modifyReflectNullSafe", "modifyRootPushed", "delOneGuarded", "filterRootDocument"} {
 		fmt.Fprintf(&b, "def %s : Bool := %v\n", k, facts[k])
 	}
 	b.WriteString("\nend OjgVerif.Gen.JpMut\n")
